@@ -93,6 +93,7 @@ package utils
 //@ ensures [H] old(reader.sgreedy) && old(reader.sfault) == nil ==> reader.sfault == nil
 //@ ensures [P:C10] result1 != nil ==> (result1 == ErrUnexpectedEOF)
 //@ ensures [P:C10] old(reader.sfault) != nil ==> result1 != nil
+//@ ensures [P:C05] result1 == nil ==> reader.spos > old(reader.spos)
 //@ ensures [H] old(reader.spos) <= reader.spos && reader.spos <= reader.sn
 //@ ensures [H] reader.sfault == nil ==> old(reader.sfault) == nil
 //@ loop 0 invariant fresh(buffer) && len(buffer) == 1 && 0 <= num && num <= 1
